@@ -83,6 +83,7 @@ class Term(object):
         self.labels = []
         self.origin = origin
         self.stop = None        # for 'and': index of the first element after an error stop (`a - b`), else None
+        self.wmin, self.wmax = 1, None      # for 'word': minimal / maximal length (Word(..., min=, max=, exact=))
         Term._count[0] += 1
         self.uid = Term._count[0]
 
@@ -90,6 +91,7 @@ class Term(object):
         t = Term(self.kind, self.kids, self.text, self.init, self.body, self.src, self.origin)
         t.kids = self.kids              # children are shared (shallow copy), like pyparsing's copy()
         t.stop = self.stop
+        t.wmin, t.wmax = self.wmin, self.wmax
         t.name = self.name
         t.actions = list(self.actions)
         t.labels = []
@@ -115,7 +117,9 @@ class Term(object):
         elif self.kind == 'clit':
             s = 'Caseless(%r)' % self.text
         elif self.kind == 'word':
-            s = 'Word(%s%s)' % (_cs(self.init), '' if self.body == self.init else ', ' + _cs(self.body))
+            s = 'Word(%s%s%s)' % (_cs(self.init), '' if self.body == self.init else ', ' + _cs(self.body),
+                                  '' if (self.wmin, self.wmax) == (1, None) else
+                                  (', exact=%d' % self.wmin if self.wmin == self.wmax else ', min=%d, max=%s' % (self.wmin, self.wmax)))
         elif self.kind == 'end':
             s = 'stringEnd'
         elif self.kind == 'empty':
@@ -513,12 +517,29 @@ class Grammar(object):
             only(1, 1)
             return Term(kind, text=self._string(args[0], e), src=e)
         if kind == 'word':
-            only(1, 2)
-            init = self._string(args[0], e)
-            body = self._string(args[1], e) if len(args) == 2 else init
+            only(1, 2, ('min', 'max', 'exact', 'init_chars', 'body_chars', 'initChars', 'bodyChars'))
+            a0 = args[0] if args else kws.get('init_chars', kws.get('initChars'))
+            a1 = args[1] if len(args) == 2 else kws.get('body_chars', kws.get('bodyChars'))
+            init = self._string(a0, e)
+            body = self._string(a1, e) if a1 is not None else init
             if not init:
                 raise AnalysisError('Word with empty character set: `%s`' % short(e))
-            return Term('word', init=init, body=body, src=e)
+            t = Term('word', init=init, body=body, src=e)
+            nums_ = {}
+            for k in ('min', 'max', 'exact'):
+                if k in kws:
+                    v = kws[k]
+                    if not (isinstance(v, Const) and isinstance(v.value, int) and not isinstance(v.value, bool) and v.value >= 0):
+                        raise AnalysisError('Word(%s=...) is not an integer literal: `%s`' % (k, short(e)))
+                    nums_[k] = v.value
+            if nums_.get('exact'):
+                t.wmin = t.wmax = nums_['exact']
+            else:
+                t.wmin = max(1, nums_.get('min', 1))
+                t.wmax = nums_.get('max') or None
+            if t.wmax is not None and t.wmax < t.wmin:
+                raise AnalysisError('Word with max < min: `%s`' % short(e))
+            return t
         if kind in ('combine', 'opt', 'star', 'plus', 'group', 'suppress', 'follow', 'not'):
             only(1, 1)
             return Term(kind, [self._term(args[0], e.args[0])], src=e)
@@ -689,7 +710,9 @@ class Grammar(object):
                     outs = {o + c for o in outs for c in {ch.lower(), ch.upper()}}
                 return outs
             if k == 'word':
-                return set(t.init) | {i + b for i in t.init for b in t.body}
+                one = set(t.init) if t.wmin <= 1 else set()
+                two = {i + b for i in t.init for b in t.body} if (t.wmax is None or t.wmax >= 2) else set()
+                return one | two
             if k == 'end':
                 return {E}
             if k in ('empty', 'not', 'follow'):
@@ -893,6 +916,8 @@ class Grammar(object):
         k = t.kind
         if k in ('lit', 'clit'):
             return {t.text}
+        if k == 'word' and t.wmax == 1:
+            return set(t.init)
         if k in ('suppress',):
             return self.literal_tokens(t.kids[0])
         if k == 'first':
@@ -939,8 +964,11 @@ class Grammar(object):
                 return {o for o in outs if len(o) <= maxlen}
             if k == 'word':
                 out, cur = set(), set(x.init)
-                for _ in range(maxlen):
-                    out |= cur
+                for n_ in range(1, maxlen + 1):
+                    if n_ >= x.wmin and (x.wmax is None or n_ <= x.wmax):
+                        out |= cur
+                    if x.wmax is not None and n_ >= x.wmax:
+                        break
                     cur = {c + b for c in cur for b in x.body}
                     if len(out) + len(cur) > cap:
                         raise AnalysisError('token language of `%s` too large to enumerate' % x.describe(1))
@@ -974,6 +1002,8 @@ class Grammar(object):
             return set()
         if k in ('lit', 'clit'):
             return {t.text}
+        if k == 'word' and t.wmax == 1:
+            return set(t.init)
         if k == 'first':
             out = set()
             for kid in t.kids:
@@ -1156,9 +1186,9 @@ class Grammar(object):
             i = ws(pos)
             if i < len(text) and text[i] in t.init:
                 j = i + 1
-                while j < len(text) and text[j] in t.body:
+                while j < len(text) and text[j] in t.body and (t.wmax is None or j - i < t.wmax):
                     j += 1
-                return j
+                return j if j - i >= t.wmin else None
             return None
         if k == 'end':
             i = ws(pos)
@@ -1231,6 +1261,52 @@ class Grammar(object):
                 if a.kind == 'group':
                     out.append((a.value, t, 'group_if_multiple'))
         return out
+
+    def minus_sites(self):
+        """Every token position that can match exactly '-': [(site term, literal set of the whole alternative set there,
+        enclosing Combine or None)].  The site is the outermost ordered choice (through nested choices) that contains the
+        '-' alternative, or the literal/Word itself when it stands alone."""
+        par = self.parents()
+        out, seen = [], set()
+        for t in self.nodes():
+            lits = self.literal_tokens(t) if t.kind in ('lit', 'clit', 'word') else None
+            if not lits or '-' not in lits:
+                continue
+            # climb through enclosing ordered choices
+            tops = []
+            stack = [t]
+            visited = set()
+            while stack:
+                x = stack.pop()
+                if id(x) in visited:
+                    continue
+                visited.add(id(x))
+                pars = par.get(id(x), [])
+                ups = [p_ for p_, i in pars if p_.kind == 'first' and self.literal_tokens(p_) is not None]
+                stack.extend(ups)
+                if len(ups) < len(pars) or not pars:
+                    tops.append(x)        # also used outside an enclosing choice
+            for top in tops:
+                if id(top) in seen:
+                    continue
+                seen.add(id(top))
+                out.append((top, self.literal_tokens(top), self._enclosing_combine(top)))
+        return out
+
+    def _enclosing_combine(self, t):
+        par = self.parents()
+        seen, stack = set(), [t]
+        while stack:
+            x = stack.pop()
+            if id(x) in seen:
+                continue
+            seen.add(id(x))
+            for p_, i in par.get(id(x), []):
+                if p_.kind == 'combine':
+                    return p_
+                if p_.kind != 'forward':
+                    stack.append(p_)
+        return None
 
     def action_sites(self):
         """[(term, Action)] over the reachable graph."""
